@@ -281,6 +281,9 @@ theorem processMessage_setErr (env : PEnv) (orc : EvalOracles) (expr : Expr) (md
         simp [orErr, setErr]
       | some ms =>
         simp only [afterParse]
+        rw [mapP_bind]
+        congr 1
+        funext ev
         exact afterVerdict_setErr env md name st ms _ b
 
 theorem walk_setErr (env : PEnv) (orc : EvalOracles) (expr : Expr) (fuel : Nat) (md : Maildir) (st : MainSt) (b : Bool) :
